@@ -10,7 +10,7 @@
                set iteration order = any order) followed by the cycle check -> "numbered" | "rejected"
      local     StartLocal, RunLocal(j, ok), SkipLocal(j), EndLocal      -- LocalBackend._async_run, one
                action per iteration of its job loop (cancel_child_jobs is part of the iteration)
-     service   StartService, Submit(j, rec), EndService                 -- ServiceBackend._async_run, one
+     service   StartService, Submit(j, rec), EndService(ups)                -- ServiceBackend._async_run, one
                action per create_job; rec is the job spec handed to the batch client
 
    Job attributes are modelled as the code keeps them (Job._dependencies, _valid, _mentioned, _inputs,
@@ -40,7 +40,8 @@ CONSTANTS
   MaxCmds,        \* commands per job
   MaxToks,        \* tokens per command (pure-spec exploration only)
   LateExt,        \* TRUE: add_extension is accepted after the resource was mentioned (what the code does)
-  Backends        \* subset of {"local", "service"}
+  Backends,       \* subset of {"local", "service"}
+  EdgeLimit       \* state constraint EdgeBound: depends_on edges + consumed resources (exploration bound)
 
 VARIABLES
   njobs, always, dirn,                                            \* jobs
@@ -68,11 +69,11 @@ JF == { [k |-> "jf", j |-> j, n |-> n] : j \in Jobs, n \in Names }
 RGof(j) == [k |-> "rg", j |-> j, n |-> "g"]
 RG == IF GroupMembers = {} THEN {} ELSE { RGof(j) : j \in Jobs }
 GM == { [k |-> "gm", j |-> j, n |-> m] : j \in Jobs, m \in GroupMembers }
-IN == { [k |-> "in", j |-> 0, n |-> ToString(i)] : i \in 1..MaxInputs }
+InF == { [k |-> "in", j |-> 0, n |-> ToString(i)] : i \in 1..MaxInputs }
 TheIG == [k |-> "ig", j |-> 0, n |-> "G"]
 IG == IF InGroupMembers = {} THEN {} ELSE { TheIG }
 IM == { [k |-> "im", j |-> 0, n |-> m] : m \in InGroupMembers }
-Files  == JF \cup GM \cup IN \cup IM
+Files  == JF \cup GM \cup InF \cup IM
 Groups == RG \cup IG
 Res    == Files \cup Groups
 
@@ -99,7 +100,7 @@ Init ==
   /\ created = JF
   /\ value = [r \in Res |-> IF r.k = "jf" THEN r.n ELSE IF r.k = "gm" THEN "g." \o r.n ELSE ""]
   /\ hasext = {}
-  /\ inpath = [r \in IN \cup IM |-> ""]
+  /\ inpath = [r \in InF \cup IM |-> ""]
   /\ deps = [j \in Jobs |-> {}] /\ valid = [j \in Jobs |-> {}] /\ mentioned = [j \in Jobs |-> {}]
   /\ inputs = [j \in Jobs |-> {}] /\ intout = [j \in Jobs |-> {}] /\ extout = [j \in Jobs |-> {}]
   /\ outpaths = [r \in Files |-> {}]
@@ -138,8 +139,8 @@ DeclareGroup(j) ==
 PathOf(ip) == ip.dir \o "/" \o ip.base
 \* Batch.read_input(path); root = the random directory the file gets under inputs/
 ReadInput(r, ip, root) ==
-  /\ phase = "build" /\ r \in IN /\ r \notin created /\ ip \in InPaths
-  /\ \A q \in (IN \cup IG) \cap created : value[q] # root /\ value[q] # root \o "/" \o ip.base
+  /\ phase = "build" /\ r \in InF /\ r \notin created /\ ip \in InPaths
+  /\ \A q \in (InF \cup IM) \cap created : value[q] # root \o "/" \o ip.base     \* random roots do not collide
   /\ created' = created \cup {r}
   /\ value' = [value EXCEPT ![r] = root \o "/" \o ip.base]
   /\ inpath' = [inpath EXCEPT ![r] = ip]
@@ -152,7 +153,7 @@ ReadInputGroup(f, root) ==
   /\ created' = created \cup {TheIG} \cup IM
   /\ value' = [r \in Res |-> IF r = TheIG THEN root
                               ELSE IF r \in IM THEN root \o "/" \o f[r.n].base ELSE value[r]]
-  /\ inpath' = [r \in IN \cup IM |-> IF r \in IM THEN f[r.n] ELSE inpath[r]]
+  /\ inpath' = [r \in InF \cup IM |-> IF r \in IM THEN f[r.n] ELSE inpath[r]]
   /\ UNCHANGED <<jobvars, hasext, attrs, ghosts, phase, order, locvars, srvvars>>
 
 \* Job._interpolate_command: the regex handler runs once per reference, left to right.
@@ -199,7 +200,7 @@ MentionedAnywhere(r) == \E j \in Live : r \in mentioned[j] \/ GroupOf(r) \in men
 
 \* JobResourceFile.add_extension(e)
 AddExt(r, e) ==
-  /\ phase = "build" /\ r \in (JF \cup GM) \cap created /\ r.j \in Live /\ e \in Exts
+  /\ phase = "build" /\ r \in JF /\ r.j \in Live /\ e \in Exts
   /\ LateExt \/ ~MentionedAnywhere(r)
   /\ IF r \in hasext
      THEN phase' = "aborted" /\ UNCHANGED <<value, hasext>>          \* "already has a file extension"
@@ -313,18 +314,18 @@ FaithfulRec(j) ==
 \* rec is a parameter: the pure specification submits FaithfulRec(j); trace validation passes the job spec
 \* the real backend produced, and the C18 invariants judge it.  parents must already be submitted
 \* (the batch client refuses anything else).
-Submit(j, rec, ups) ==
+Submit(j, rec) ==
   /\ phase = "service" /\ pos <= njobs /\ j = order[pos]
   /\ rec.parents \subseteq { order[i] : i \in 1..(pos - 1) }
   /\ sub' = sub @@ (j :> rec)
-  /\ uploads' = uploads \cup ups
   /\ pos' = pos + 1
-  /\ UNCHANGED <<jobvars, resvars, attrs, ghosts, phase, order, cancelled, log, raised, lroot, rroot>>
+  /\ UNCHANGED <<jobvars, resvars, attrs, ghosts, phase, order, cancelled, log, raised, lroot, rroot, uploads>>
 
-EndService ==
+\* copy_from_dict(local_input_file_transfers) and async_batch.submit(); ups = the local files uploaded
+EndService(ups) ==
   /\ phase = "service" /\ pos > njobs
-  /\ phase' = "submitted"
-  /\ UNCHANGED <<jobvars, resvars, attrs, ghosts, order, locvars, srvvars>>
+  /\ phase' = "submitted" /\ uploads' = ups
+  /\ UNCHANGED <<jobvars, resvars, attrs, ghosts, order, locvars, lroot, rroot, sub>>
 
 \* ---- the pure specification ----------------------------------------------------------------------
 DDir(j) == "d" \o ToString(j)
@@ -332,25 +333,32 @@ RefToks == { [t |-> "ref", r |-> r] : r \in created }
 LitTok == [t |-> "lit", s |-> "x"]
 TokSeqs == UNION { [1..n -> RefToks \cup {LitTok}] : n \in 1..MaxToks }
 
-Build ==
-  \/ \E a \in BOOLEAN : NewJob(a, DDir(njobs + 1))
-  \/ \E c, p \in Live : Depend(c, p)
-  \/ \E j \in Live : DeclareGroup(j)
-  \/ \E r \in IN, ip \in InPaths : ReadInput(r, ip, "r" \o r.n)
-  \/ \E f \in [InGroupMembers -> InPaths] : ReadInputGroup(f, "rG")
-  \/ \E j \in Live, toks \in TokSeqs : Command(j, toks)
-  \/ \E r \in JF \cup GM, e \in Exts : AddExt(r, e)
+\* (zero-arity wrappers with state-dependent bounds so that TLC's coverage report names the action)
+NewJobAny   == \E a \in BOOLEAN, d \in {DDir(njobs + 1)} : NewJob(a, d)
+ReadInputAny == \E r \in InF, ip \in InPaths : ReadInput(r, ip, "r" \o r.n)
+ReadInputGroupAny == \E f \in [InGroupMembers -> InPaths] : ReadInputGroup(f, "rG")
+CommandAny  == \E j \in Jobs, toks \in TokSeqs : Command(j, toks)
+NumberAny   == \E o \in Orders : Number(o)
+SubmitAny   == \E j \in Live : Submit(j, FaithfulRec(j))
+EndServiceAny == \E ups \in { UNION { FaithfulUploads(j) : j \in Live } } : EndService(ups)
+
+Next ==
+  \/ NewJobAny
+  \/ \E c, p \in Jobs : Depend(c, p)
+  \/ \E j \in Jobs : DeclareGroup(j)
+  \/ ReadInputAny
+  \/ ReadInputGroupAny
+  \/ CommandAny
+  \/ \E r \in JF, e \in Exts : AddExt(r, e)
   \/ \E r \in Res, d \in Dests : WriteOutput(r, d)
-
-Run ==
-  \/ \E o \in Orders : Number(o)
-  \/ StartLocal \/ EndLocal
-  \/ \E j \in Live : RunLocal(j, TRUE) \/ RunLocal(j, FALSE) \/ SkipLocal(j)
+  \/ NumberAny
+  \/ StartLocal
+  \/ \E j \in Jobs, ok \in BOOLEAN : RunLocal(j, ok)
+  \/ \E j \in Jobs : SkipLocal(j)
+  \/ EndLocal
   \/ StartService("/L", "R:")
-  \/ \E j \in Live : Submit(j, FaithfulRec(j), FaithfulUploads(j))
-  \/ EndService
-
-Next == Build \/ Run
+  \/ SubmitAny
+  \/ EndServiceAny
 Spec == Init /\ [][Next]_vars
 
 \* =============================================================================================
@@ -477,6 +485,8 @@ C18_External ==
   (phase = "submitted" /\ Wellformed) =>
      \A w \in wout : IF IsGroup(w[1]) THEN \A m \in Members(w[1]) : ExtOk(m, w[2] \o "." \o m.n)
                      ELSE ExtOk(w[1], w[2])
+
+EdgeBound == Cardinality(expl) + Cardinality(uses) <= EdgeLimit
 
 \* views for exploration without the command text
 NoCmdView == <<jobvars, created, value, hasext, inpath, deps, valid, mentioned, inputs, intout, extout, outpaths,
